@@ -509,7 +509,7 @@ Definition gen_norm_sigmoid (O : NumOps) (fexp : F O -> F O) (curvature : F O) (
 
 # ------------------------------------------------------------------------------------- model_impl / derived outputs
 def gen_misc(repo):
-    out = [HEADER % "summer2/runner/jax/model_impl.py, derived_outputs.py, functions/derived.py"]
+    out = [HEADER % "summer2/runner/jax/model_impl.py"]
     tree = ast.parse(open(os.path.join(repo, "summer2/runner/jax/model_impl.py")).read())
     cc = find_func(tree, "clean_compartments")
     expect(src_equal(cc.body[0], "return jnp.where(compartment_values < 0.0, 0.0, compartment_values)"), "clean_compartments")
@@ -531,6 +531,11 @@ def gen_misc(repo):
                "  let category_prevalence := vdiv O infectious_populations category_populations in\n"
                "  let infection_frequency := matvec O mixing_matrix category_prevalence in\n"
                "  if freq then infection_frequency else infection_density.\n")
+    return "MiscGen.v", "\n".join(out)
+
+
+def gen_derived(repo):
+    out = [HEADER % "summer2/runner/jax/derived_outputs.py"]
     tree = ast.parse(open(os.path.join(repo, "summer2/runner/jax/derived_outputs.py")).read())
     bfo = find_func(tree, "build_flow_output")
     gfo = [n for n in ast.walk(bfo) if isinstance(n, ast.FunctionDef) and n.name == "get_flow_output"]
@@ -551,6 +556,11 @@ def gen_misc(repo):
     expect(src_equal(ic.body[0], "output = jnp.zeros(len(times), dtype=jnp.float64)"), "indexed cumsum: zeros")
     expect(src_equal(ic.body[1], "output = output.at[start_idx:].set(jnp.cumsum(in_arr[start_idx:]))"), "indexed cumsum: from start index")
     expect(src_equal(ic.body[2], "return output"), "indexed cumsum: return")
+    return "DerivedGen.v", "\n".join(out)
+
+
+def gen_rolling(repo):
+    out = [HEADER % "summer2/functions/derived.py"]
     # functions/derived.py: rolling helpers (templates over Model/Rolling.v, emitted only when the source matches)
     tree = ast.parse(open(os.path.join(repo, "summer2/functions/derived.py")).read())
     rd = find_func(find_func(tree, "get_rolling_diff"), "rolling_diff")
@@ -575,7 +585,7 @@ def gen_misc(repo):
                "  rolling_diff O periods x.\n"
                "Definition gen_rolling_reduction (O : NumOps) (func : list (F O) -> F O) (window : nat) (x : list (F O))\n"
                "  : list (option (F O)) := rolling_reduction O func window x.\n")
-    return "MiscGen.v", "\n".join(out)
+    return "RollingGen.v", "\n".join(out)
 
 
 def gen_trace(repo):
@@ -583,7 +593,12 @@ def gen_trace(repo):
     return py2trace.gen_trace(repo)
 
 
-GENERATORS = [gen_solvers, gen_ode, gen_util, gen_interpolate, gen_misc, gen_trace]
+GENERATORS = [gen_solvers, gen_ode, gen_util, gen_interpolate, gen_misc, gen_derived, gen_rolling, gen_trace]
+
+
+GEN_FILE = {"gen_solvers": "SolversGen", "gen_ode": "OdeGen", "gen_util": "UtilGen", "gen_interpolate": "InterpolateGen",
+            "gen_misc": "MiscGen", "gen_derived": "DerivedGen", "gen_rolling": "RollingGen", "gen_trace": "TraceGen"}
+FAILED = []     # modules (Gen.X) whose kernel the translators could not read on the last regenerate_all
 
 
 def regenerate_all(repo=None):
@@ -591,12 +606,19 @@ def regenerate_all(repo=None):
     os.makedirs(GEN, exist_ok=True)
     log = []
     ok = True
+    del FAILED[:]
     for g in GENERATORS:
         try:
             name, text = g(repo)
         except Unsupported as e:
             ok = False
+            FAILED.append("Gen." + GEN_FILE[g.__name__])
             log.append("%s: UNSUPPORTED %s" % (g.__name__, e))
+            continue
+        except Exception as e:  # a kernel that disappeared or no longer parses: fail closed, for that file
+            ok = False
+            FAILED.append("Gen." + GEN_FILE[g.__name__])
+            log.append("%s: ERROR %r" % (g.__name__, e))
             continue
         path = os.path.join(GEN, name)
         old = open(path).read() if os.path.exists(path) else None
